@@ -292,6 +292,12 @@ func (e *Environment) Get(name string) (Object, bool) {
 	return nil, false
 }
 
+// IsOwnFunctionName is true when name is the name of the (named) function this environment is a call of:
+// Get answers that function for the name, whatever the store holds.
+func (e *Environment) IsOwnFunctionName(name string) bool {
+	return e.function != nil && e.function.Name != nil && name == e.function.Name.Literal()
+}
+
 // Delete removes the first entry found under that name from the environment.
 // TODO: check if references need special handling.
 func (e *Environment) Delete(name string) Object {
